@@ -9,7 +9,7 @@ ENCODED = ['Fxp.resize', 'Fxp.like', 'Fxp.__init__', 'Fxp.set_val', 'Fxp._format
 ASSUMPTIONS = ['the scaled source value stays inside the core window |v * 2^n_frac(dst)| < 2^62 (C19 covers the 64-bit boundary)',
                'the source holds arbitrary in-range code(s); every route runs on a fresh copy of the same source in one symbolic path',
                'sequences of conversions follow from the single step because the source state is arbitrary (no separate history search)']
-ROUTES = ('resize', 'resize_dtype', 'like_kw', 'like_method', 'construct', 'assign', 'call', 'equal', 'setitem')
+ROUTES = ('resize', 'resize_partial', 'resize_dtype', 'like_kw', 'like_method', 'construct', 'assign', 'call', 'equal', 'setitem')
 
 
 def _fm_small():
@@ -30,6 +30,13 @@ def configs(tier, seed):
     npairs = 260 if tier == 'quick' else 2600
     for _ in range(npairs):
         src, dst = rng.choice(fm), rng.choice(fm)
+        if rng.random() < 0.4:
+            # destinations that differ from the source in one or two size fields only (sign flip, wider / narrower word with the
+            # same fraction length, ...): the cases a conversion shortcut would single out
+            s0, n0, f0 = src
+            k = rng.choice((1, 2, 4))
+            dst = rng.choice([(not s0, n0 + k, f0), (not s0, n0, f0), (s0, n0 + k, f0), (s0, max(1, n0 - k), f0), (s0, n0, f0 + k), (s0, n0, f0 - k),
+                              (not s0, max(1, n0 - k), f0), (s0, n0 + k, f0 + k), (s0, n0, f0)])
         r, o = rng.choice(C.modes())
         shape = rng.choice(([], [], [], [3], [2, 2])) if tier == 'thorough' else rng.choice(([], [], [], [], [3], [2, 2]))
         if o == 'saturate' and shape:
@@ -84,6 +91,10 @@ def run(F, cfg, inp):
     a = source(**kw)
     a.resize(ds, dn, df)
     ob['resize'] = _snap(a)
+    # (only the size arguments that change are passed)
+    a = source(**kw)
+    a.resize(**{k_: v_ for k_, v_, old in (('signed', ds, ss), ('n_word', dn, sn), ('n_frac', df, sf)) if v_ != old})
+    ob['resize_partial'] = _snap(a)
     b = source(**kw)
     b.resize(dtype=C.fmt_str(ds, dn, df))
     ob['resize_dtype'] = _snap(b)
